@@ -373,12 +373,18 @@ def oracle_sorted(issues, entry, fails, fid=None):
     ks = []
     for i in issues:
         ks.append(tuple(i.get(k, -1 if k == "ec_row" else "") for k in DOC_SORT))
+    bad = None
     try:
-        ok = all(ks[j] <= ks[j + 1] for j in range(len(ks) - 1))
+        for j in range(len(ks) - 1):
+            if not ks[j] <= ks[j + 1]:
+                bad = j
+                break
     except TypeError:
-        ok = True
-    if not ok:
-        fails.append(["sorted-by-file-column-key-row", f"{entry}: {ks[:6]}", fid])
+        bad = None
+    if bad is not None:
+        fails.append(["sorted-by-file-column-key-row",
+                      f"{entry}: position {bad}: {ks[bad]} ({issues[bad].get('code')}) comes before "
+                      f"{ks[bad + 1]} ({issues[bad + 1].get('code')})", fid])
 
 
 def oracle_export(issues, entry, fails):
@@ -608,21 +614,34 @@ def run_file_case(case):
     return out
 
 
+def doc_key(d):
+    return tuple(d.get(k, -1 if k == "ec_row" else "") for k in DOC_SORT[1:])
+
+
 def check_sorted_stable(items, perm, rev, entry, fails):
-    """Independent reference: permutation, ordered by the documented key, equal keys keep their order."""
+    """Independent reference (does not read the implementation's key list for the ORDER): a permutation; among
+    issues with the same title the documented key (file, sidecar column, sidecar key, row) never decreases;
+    issues with equal sort keys keep their relative order."""
     if sorted(perm) != list(range(len(items))):
         fails.append(["sort-permutation", f"{entry}: {perm}", None])
         return
-    ks = [key_tuple(items[j]) for j in perm]
+    out = [items[j] for j in perm]
     try:
-        for a in range(len(ks) - 1):
-            ordered = ks[a] >= ks[a + 1] if rev else ks[a] <= ks[a + 1]
-            if not ordered:
-                fails.append(["sort-ordered", f"{entry}: {ks[a]} before {ks[a + 1]} reverse={rev}"[:300], None])
-                return
-            if ks[a] == ks[a + 1] and perm[a] > perm[a + 1]:
-                fails.append(["sort-stable", f"{entry}: equal keys {ks[a]} reordered {perm[a]},{perm[a + 1]}"[:300], None])
-                return
+        for a in range(len(out) - 1):
+            x, y = out[a], out[a + 1]
+            if x.get("ec_title", "") == y.get("ec_title", ""):
+                kx, ky = doc_key(x), doc_key(y)
+                ordered = kx >= ky if rev else kx <= ky
+                if not ordered:
+                    fails.append(["sort-ordered-by-file-column-key-row",
+                                  f"{entry}: {kx} before {ky} reverse={rev}"[:300], None])
+                    return
+        for a in range(len(out)):
+            for b in range(a + 1, len(out)):
+                if key_tuple(out[a]) == key_tuple(out[b]) and perm[a] > perm[b]:
+                    fails.append(["sort-stable", f"{entry}: equal keys {key_tuple(out[a])} reordered "
+                                                 f"{perm[a]},{perm[b]} reverse={rev}"[:300], None])
+                    return
     except TypeError:
         pass
 
@@ -989,6 +1008,53 @@ def gen_sidecar(rng, mostly_valid=True):
     return sc
 
 
+AFTER_REF = ["Black, Black", "Blue, Blue", "(Onset, Red)", "Red, (Green, Red-color/Myext), Red", "Duration/3 s",
+             "(Def/MyDef, Onset, Offset)", "(Red, (Def/MyDef, Onset))", "Item/Object, Item/Object", "Green"]
+LENGTHS = ["Red", "Item/Object, Blue", "(Item/Object, (Green)), Sensory-event", "Agent-action", "blue",
+           "Label/abc, Parameter-value/1.5, Green", "(Red, Blue)"]
+
+
+def enrich_sidecar(rng, sc):
+    """Scenario classes beyond independent columns:
+    (a) a string with {column} references to CATEGORICAL columns that have several annotations of different
+        lengths -- one substituted text per combination, each validated under its own HED-string context -- with
+        full-phase, offset-carrying issues before and after the reference;
+    (b) categorical columns that mix a (Definition/...) annotation with ordinary ones (the only case in which
+        _check_definitions_bad_spot reports), under names that sort before, between and after the other columns."""
+    cats = [c for c in sc if isinstance(sc[c].get("HED"), dict) and len(sc[c]["HED"]) >= 1
+            and all(isinstance(v, str) and "{" not in v for v in sc[c]["HED"].values())]
+    if rng.random() < 0.55:
+        if not cats or rng.random() < 0.5:
+            name = rng.choice(["stim", "kind", "zcat"])
+            keys = rng.sample(["a", "b", "go", "stop", "x"], rng.randint(2, 3))
+            sc[name] = {"HED": {k: v for k, v in zip(keys, rng.sample(LENGTHS, len(keys)))}}
+            cats.append(name)
+        targets = rng.sample(cats, min(len(cats), rng.choice([1, 1, 1, 2])))
+        for t in targets:       # make sure the referenced annotations differ in length
+            h = sc[t]["HED"]
+            if len(h) >= 2 and len({len(v) for v in h.values()}) < 2:
+                k = next(iter(h))
+                h[k] = h[k] + ", Sensory-event"
+        pieces = [rng.choice(AFTER_REF + ["Green", "Label/x"])] if rng.random() < 0.4 else []
+        pieces += ["{%s}" % t for t in targets]
+        pieces += [rng.choice(AFTER_REF) for _ in range(rng.randint(1, 2))]
+        text = rng.choice(SEPS).join(pieces)
+        if rng.random() < 0.5:
+            sc[rng.choice(["aref", "refcol", "zref"])] = {"HED": {"r1": text, "r2": rng.choice(GOOD[:9] + WARN[:6])}}
+        else:
+            sc[rng.choice(["aval", "valref"])] = {"HED": "Label/#, " + text}
+    if rng.random() < 0.45:
+        name = rng.choice(["amix", "mix", "zmix", "bcol"])
+        h = {"d": "(Definition/Mix%s, (Red))" % name.capitalize(),
+             rng.choice(["e", "a"]): rng.choice(GOOD[:9] + WARN[:8] + BAD[:12])}
+        if rng.random() < 0.4:
+            h["f"] = rng.choice(["(Definition/Other%s, (Blue))" % name.capitalize(), "green", "Red, Red"])
+        sc[name] = {"HED": h}
+        if rng.random() < 0.7:   # another issue in a column that sorts elsewhere
+            sc[rng.choice(["ccol", "aaa", "zzz"])] = {"HED": {"k": rng.choice(WARN[:8] + BAD[:12]), "l": "Green"}}
+    return sc
+
+
 def spoil_sidecar(rng, sc):
     """Structure / reference faults: blank strings, n/a keys, reserved names, unknown or malformed references."""
     for _ in range(rng.randint(1, 3)):
@@ -1046,7 +1112,9 @@ def gen_file_cases(rng, n_sc, n_tab):
     out = []
     for k in range(n_sc):
         sc = gen_sidecar(rng, rng.random() < 0.5)
-        if rng.random() < 0.35:
+        if rng.random() < 0.6:
+            sc = enrich_sidecar(rng, sc)
+        if rng.random() < 0.3:
             sc = spoil_sidecar(rng, sc)
         out.append({"kind": "sidecar", "sidecar": sc, "rows": None, "columns": None,
                     "name": rng.choice(["sc.json", "a/b_events.json", ""]), "seed": rng.randrange(10 ** 6)})
@@ -1163,6 +1231,15 @@ CORPUS = [
     # finding C12-F2 witness: early return of SidecarValidator.validate is unsorted
     {"kind": "sidecar", "sidecar": {"b": {"HED": {"x": ""}}, "a": {"HED": {"k": "{zz}, Red", "j": "Blue"}}},
      "rows": None, "columns": None, "name": "sc.json", "seed": 1},
+    # regression: one HED-string context per {column}-reference combination (annotations of different lengths,
+    # offset-carrying full-phase issue after the reference)
+    {"kind": "sidecar", "sidecar": {"stim": {"HED": {"a": "Blue", "b": "Item/Object", "c": "(Red, Green)"}},
+                                    "resp": {"HED": "Label/#, {stim}, Black, Black"}},
+     "rows": None, "columns": None, "name": "sc.json", "seed": 7},
+    # regression: a definition mixed with ordinary annotations (bad spot) is sorted into place
+    {"kind": "sidecar", "sidecar": {"bcol": {"HED": {"d": "(Definition/MixB, (Red))", "e": "Blue"}},
+                                    "ccol": {"HED": {"k": "red", "l": "Green, Green"}}},
+     "rows": None, "columns": None, "name": "sc.json", "seed": 8},
     # the gate of _run_checks: a warning in the last cell must not skip the row-level checks
     {"kind": "table", "sidecar": {"cat": {"HED": {"a": "red"}}}, "rows": [["a", "Blue, Blue"]],
      "columns": ["cat", "HED"], "name": "ev.tsv", "seed": 2},
